@@ -44,7 +44,10 @@ class EventWrapper:
         self._event = trio.Event()
 
     async def clear(self) -> None:
-        self._event = trio.Event()
+        if self._event.is_set():
+            # Only a set event can be replaced, one that is not set may
+            # have tasks waiting on it which a later set must reach.
+            self._event = trio.Event()
 
     async def wait(self) -> None:
         await self._event.wait()
